@@ -66,6 +66,9 @@ type issued struct {
 func runC03(r *core.Run) {
 	cfg := c03Configs[r.Intn(len(c03Configs), "config")]
 	a := worlda.NewAuthority(r, cfg, seams.NewPlanNone(r))
+	// a long-lived signing service (one set of CA / key-manager objects for the whole history)
+	// instead of one fresh process per command; library configurations only
+	a.Persist = !cfg.ViaCLI && r.Chance(40, "long-lived-process?")
 	vcs := seams.NewSimVCS(r, "/release")
 	scratch := ""
 	nOps := 3 + r.Intn(8, "ops")
@@ -132,7 +135,7 @@ func runC03(r *core.Run) {
 				q.ClSpec = uint64(1 + r.Intn(1<<20, "clspec"))
 			}
 			if r.Chance(40, "one-count?") {
-				q.LaunchVmsas = []uint32{1, 2, 4, 8, 224}[r.Intn(5, "vmsas")]
+				q.LaunchVmsas = []uint32{1, 2, 4, 8, 224, 3, 6, 12, 100, 255}[r.Intn(10, "vmsas")]
 			}
 			q.Genoa = r.Chance(30, "genoa?")
 			if img.TDX {
@@ -168,7 +171,7 @@ func runC03(r *core.Run) {
 		}
 		r.State(shape)
 	}
-	r.Sample = map[string]any{"config": cfg.String(), "history": shape, "endorsements": len(all)}
+	r.Sample = map[string]any{"config": cfg.String(), "long_lived_process": a.Persist, "history": shape, "endorsements": len(all)}
 }
 
 // shapeKey reduces a history to the feature a known finding would be keyed on.
